@@ -255,9 +255,9 @@ fn cq(x: &mut Exec) -> Res {
             for arm in 0..arms {
                 let (t, b) = (tops[arm].load(SeqCst), bots[arm].load(SeqCst));
                 if remove_arm == Some(arm) {
-                    // a removed (cancelled) arm delivers a prefix of its events
-                    // (its last send may short-circuit once the cancel bit is set: bottom runs without an event)
-                    if got[arm] > evs2[arm] || b < got[arm] || b > got[arm] + 1 || t < b || t > b + 1 || seen_extra[arm] != (0..got[arm]).collect::<Vec<_>>() {
+                    // a removed (cancelled) arm delivers a prefix of its events; a bottom half only ever runs for an
+                    // event that poll handed out (a send that meets the cancel raises it instead of falling through)
+                    if got[arm] > evs2[arm] || b != got[arm] || t < b || t > b + 1 || seen_extra[arm] != (0..got[arm]).collect::<Vec<_>>() {
                         *e = Some(format!("removed arm {}: poll delivered {} events {:?}, top halves {}, bottom halves {}", arm, got[arm], seen_extra[arm], t, b));
                     }
                     continue;
